@@ -34,6 +34,7 @@ const (
 	c09EndProto
 	c09EndKeepAlive
 	c09EndGraceful
+	c09WriteFail // transport dead at CONNECT: Transport.Write returns an error
 )
 
 const (
@@ -50,7 +51,7 @@ type c09Out struct {
 	Code byte // CONNACK return code for c09Refused
 }
 
-func (o c09Out) connected() bool { return o.Kind >= c09EndPeer }
+func (o c09Out) connected() bool { return o.Kind >= c09EndPeer && o.Kind <= c09EndGraceful }
 func (o c09Out) dialOK() bool    { return o.Kind != c09DialErr }
 
 func (o c09Out) coq() string {
@@ -63,6 +64,8 @@ func (o c09Out) coq() string {
 		return "OConnFail CNoConnack"
 	case c09PeerClosed:
 		return "OConnFail CPeerClosed"
+	case c09WriteFail:
+		return "OConnFail CWriteFail"
 	case c09EndPeer:
 		return "OConnected EPeerClose"
 	case c09EndProto:
@@ -83,6 +86,8 @@ func (o c09Out) desc() string {
 		return "no-connack-until-timeout"
 	case c09PeerClosed:
 		return "peer-closes-during-connect"
+	case c09WriteFail:
+		return "write-of-CONNECT-fails(transport-dead)"
 	case c09EndPeer:
 		return "connected-then-peer-close"
 	case c09EndProto:
@@ -278,6 +283,7 @@ type c09Run struct {
 
 var errC09Dial = errors.New("c09: scripted dial error")
 var errC09End = errors.New("c09: script exhausted")
+var errC09Write = errors.New("c09: transport dead, write fails")
 
 func (r *c09Run) logEv(e c09Ev) {
 	r.mu.Lock()
@@ -552,6 +558,9 @@ func (r *c09Run) onWrite(i int, c *c09Cli, pkt []byte) error {
 		case c09NoConnack:
 		case c09PeerClosed:
 			c.conn.finish()
+		case c09WriteFail:
+			// nothing was written (io.Writer contract); the transport stays open until the client closes it
+			return errC09Write
 		default:
 			c.conn.send(connackOK)
 			if s.Race && r.discCalled() {
@@ -621,9 +630,9 @@ func c09Exec(s *c09Scn, presets []c09Preset) *c09Obs {
 	o := &c09Obs{}
 	select {
 	case <-r.discDone:
-	case <-time.After(40 * time.Second):
+	case <-time.After(30 * time.Second):
 		// nothing ended the scenario: force the end, report
-		r.note("scenario did not end within 40 s")
+		r.note("scenario did not end within 30 s")
 		o.hung = true
 		go r.landDisconnect()
 		select {
@@ -759,7 +768,7 @@ func (o *c09Obs) elapsedCoq() string {
 func c09Alphabet(full bool) []c09Out {
 	a := []c09Out{{Kind: c09DialErr}, {Kind: c09Refused, Code: 5}, {Kind: c09PeerClosed}, {Kind: c09EndPeer}, {Kind: c09EndProto}}
 	if full {
-		a = append(a, c09Out{Kind: c09NoConnack}, c09Out{Kind: c09EndKeepAlive})
+		a = append(a, c09Out{Kind: c09NoConnack}, c09Out{Kind: c09EndKeepAlive}, c09Out{Kind: c09WriteFail})
 	}
 	return a
 }
@@ -872,11 +881,13 @@ func c09Generate(tier string, seed int64) (serial []*c09Scn, par []*c09Scn) {
 	fails := func(n int) []c09Out {
 		var s []c09Out
 		for i := 0; i < n; i++ {
-			switch i % 3 {
+			switch i % 4 {
 			case 0:
 				s = append(s, c09Out{Kind: c09DialErr})
 			case 1:
 				s = append(s, c09Out{Kind: c09Refused, Code: byte(1 + i%5)})
+			case 2:
+				s = append(s, c09Out{Kind: c09WriteFail})
 			default:
 				s = append(s, c09Out{Kind: c09PeerClosed})
 			}
@@ -944,7 +955,7 @@ func c09Generate(tier string, seed int64) (serial []*c09Scn, par []*c09Scn) {
 		enum(full, 2)
 		enum(full, 3)
 		enum(small, 4)
-		sample(full, 4, 2000)
+		sample(full, 4, 1500)
 		sample(full, 5, 800)
 		sample(full, 6, 400)
 		sample(small, 8, 200)
